@@ -1,6 +1,7 @@
 (* Consequences of [parse_hit_objects_spec], one per clause of the property
-   text of C14, the C06-relevant fact about rejected lines, and the two
-   witnesses (D3 residue, spinner bit). *)
+   text of C14, the C06-relevant facts (a rejected line only touches scratch
+   buffers, scratch buffers never matter, a rejected line is as if absent), and
+   the spinner-bit witness. *)
 From RM Require Import Model.Text Model.Num Model.HitSamples Model.PathString
      Model.HitObjectLine Model.HitObjectSpec.
 From RM Require Import Proofs.HitSamplesFacts Proofs.PathStringFacts Proofs.FloatFacts14
@@ -11,12 +12,12 @@ From Flocq Require Import BinarySingleNaN.
 Open Scope Z_scope.
 
 (* ---------- a rejected line: which state fields can differ ---------- *)
+(* two states agree up to the scratch buffers [curve_points] and [vertices] *)
 Definition same_but_scratch (st st' : HOState) : Prop :=
-  ho_last st' = ho_last st /\ ho_objects st' = ho_objects st /\ ho_mode st' = ho_mode st /\
-  exists residue, ho_curve st' = ho_curve st ++ residue.
+  ho_last st' = ho_last st /\ ho_objects st' = ho_objects st /\ ho_mode st' = ho_mode st.
 
 Lemma same_refl : forall st, same_but_scratch st st.
-Proof. intros st. repeat split. exists []. rewrite app_nil_r. reflexivity. Qed.
+Proof. intros st. repeat split. Qed.
 
 Ltac rejected_leaf :=
   match goal with
@@ -36,7 +37,7 @@ Proof.
   destruct (flag_bit hot_slider (f_type f)).
   { destruct (slider_fields_spec _ _) as [pre|]; [|rejected_leaf].
     destruct (path_spec _ _) as [cps ok]. destruct ok; [rejected_leaf|].
-    intros [= <-]. repeat split. exists cps. reflexivity. }
+    intros [= <-]. repeat split. }
   destruct (flag_bit hot_spinner (f_type f)).
   { destruct (obnd _ _); [|rejected_leaf]. destruct (extras_spec _); rejected_leaf. }
   destruct (flag_bit hot_hold (f_type f)); [|rejected_leaf].
@@ -82,7 +83,7 @@ Definition kind_ok (st : HOState) (f : Fields) (k : HitObjectKind) : Prop :=
       length (sl_node_samples s) = Z.to_nat (sl_repeat_count s + 2) /\
       sl_expected_dist s = odflt None (length_spec (nth_error (f_rest f) 2)) /\
       (forall v, sl_expected_dist s = Some v -> D.ge v D.eps = true /\ D.lt D.zero v = true) /\
-      sl_control_points s = ho_curve st ++ fst (path_spec (odflt [] (nth_error (f_rest f) 0)) (f_pos f)) /\
+      sl_control_points s = fst (path_spec (odflt [] (nth_error (f_rest f) 0)) (f_pos f)) /\
       snd (path_spec (odflt [] (nth_error (f_rest f) 0)) (f_pos f)) = true
   | KSpinner s =>
       sp_pos s = spinner_pos /\ D.le D.zero (sp_duration s) = true /\
@@ -336,14 +337,80 @@ Proof.
     destruct (flag_bit hot_hold t); [injection Ht as Ht; rewrite <- Ht; reflexivity|discriminate].
 Qed.
 
+(* ---------- the scratch buffers never influence the outcome ---------- *)
+Lemma same_sym : forall a b, same_but_scratch a b -> same_but_scratch b a.
+Proof. intros a b (H1 & H2 & H3). repeat split; symmetry; assumption. Qed.
+Lemma same_trans : forall a b c, same_but_scratch a b -> same_but_scratch b c -> same_but_scratch a c.
+Proof. intros a b c (H1 & H2 & H3) (G1 & G2 & G3). repeat split; congruence. Qed.
+
+Lemma line_spec_scratch : forall st1 st2 line s1 s2,
+  same_but_scratch st1 st2 ->
+  snd (line_spec_with st1 line s1) = snd (line_spec_with st2 line s2) /\
+  same_but_scratch (fst (line_spec_with st1 line s1)) (fst (line_spec_with st2 line s2)).
+Proof.
+  intros [l1 c1 v1 o1 m1] [l2 c2 v2 o2 m2] line s1 s2 (Hl & Ho & Hm).
+  cbn [ho_last ho_objects ho_mode] in Hl, Ho, Hm. subst l2 o2 m2.
+  unfold line_spec_with, accept, starts_combo, same_but_scratch.
+  cbn [ho_last ho_curve ho_vertices ho_objects ho_mode].
+  repeat match goal with
+         | |- context [match ?x with _ => _ end] => destruct x
+         end; cbn [fst snd ho_last ho_objects ho_mode]; repeat split; reflexivity.
+Qed.
+
+(* two states that agree on everything except curve_points and vertices:
+   same result flag, same hit_objects (hence the same pushed object), same
+   last_object, and the output states again agree up to the two buffers *)
+Theorem scratch_irrelevant : forall st1 st2 line st1' r1 st2' r2,
+  same_but_scratch st1 st2 ->
+  parse_hit_objects st1 line = Done (st1', r1) ->
+  parse_hit_objects st2 line = Done (st2', r2) ->
+  r1 = r2 /\ same_but_scratch st1' st2'.
+Proof.
+  intros st1 st2 line st1' r1 st2' r2 Hs H1 H2.
+  destruct (parse_hit_objects_spec st1 line) as [s1 E1].
+  destruct (parse_hit_objects_spec st2 line) as [s2 E2].
+  rewrite E1 in H1. rewrite E2 in H2. injection H1 as H1. injection H2 as H2.
+  pose proof (line_spec_scratch st1 st2 line s1 s2 Hs) as [Hr Hq].
+  rewrite H1, H2 in Hr, Hq. cbn [fst snd] in Hr, Hq. split; assumption.
+Qed.
+
 (* ---------- running several lines (for examples and for C01/C06 users) ---------- *)
 Definition step_line (st : HOState) (line : str) : HOState :=
   match parse_hit_objects st line with
   | Done (st', _) => st'
   | _ => st
   end.
-Definition run_lines (mode : Z) (lines : list str) : HOState :=
-  fold_left step_line lines (ho_create mode).
+Definition run_from (st : HOState) (lines : list str) : HOState := fold_left step_line lines st.
+Definition run_lines (mode : Z) (lines : list str) : HOState := run_from (ho_create mode) lines.
+
+Lemma step_scratch : forall st1 st2 l,
+  same_but_scratch st1 st2 -> same_but_scratch (step_line st1 l) (step_line st2 l).
+Proof.
+  intros st1 st2 l Hs. unfold step_line.
+  destruct (parse_hit_objects_total st1 l) as (a & ra & Ea).
+  destruct (parse_hit_objects_total st2 l) as (b & rb & Eb).
+  rewrite Ea, Eb. eapply scratch_irrelevant; eassumption.
+Qed.
+
+Lemma run_scratch : forall lines st1 st2,
+  same_but_scratch st1 st2 -> same_but_scratch (run_from st1 lines) (run_from st2 lines).
+Proof.
+  intros lines. induction lines as [|l r IH]; intros st1 st2 Hs; [exact Hs|].
+  unfold run_from in *. cbn [fold_left]. apply IH. apply step_scratch. exact Hs.
+Qed.
+
+(* a rejected line is as if absent: same hit_objects, same last_object at the end *)
+Theorem rejected_line_absent : forall st pre l post st',
+  parse_hit_objects (run_from st pre) l = Done (st', Rejected) ->
+  same_but_scratch (run_from st (pre ++ l :: post)) (run_from st (pre ++ post)).
+Proof.
+  intros st pre l post st' H. unfold run_from in *.
+  rewrite !fold_left_app. cbn [fold_left].
+  apply run_scratch.
+  replace (step_line (fold_left step_line pre st) l) with st'
+    by (unfold step_line at 1; rewrite H; reflexivity).
+  apply same_sym. eapply rejected_state. exact H.
+Qed.
 
 Lemma coherent_fold : forall lines st, coherent st -> coherent (fold_left step_line lines st).
 Proof.
@@ -354,7 +421,7 @@ Proof.
 Qed.
 
 Lemma coherent_run : forall mode lines, coherent (run_lines mode lines).
-Proof. intros. apply coherent_fold. apply coherent_create. Qed.
+Proof. intros. unfold run_lines, run_from. apply coherent_fold. apply coherent_create. Qed.
 
 (* observations on a state, as integers *)
 Definition obs_combo (st : HOState) : list (Z * Z) :=
@@ -369,32 +436,3 @@ Definition obs_cp_counts (st : HOState) : list Z :=
                      | KSlider s => [Z.of_nat (length (sl_control_points s))]
                      | _ => [] end) (ho_objects st).
 
-(* ---------- [vertices] is scratch: it never influences the outcome ---------- *)
-Definition with_vertices (st : HOState) (v : list PCP) : HOState :=
-  mkHO (ho_last st) (ho_curve st) v (ho_objects st) (ho_mode st).
-
-Lemma line_spec_vertices : forall st v line s1 s2,
-  snd (line_spec_with st line s1) = snd (line_spec_with (with_vertices st v) line s2) /\
-  with_vertices (fst (line_spec_with st line s1)) [] =
-  with_vertices (fst (line_spec_with (with_vertices st v) line s2)) [].
-Proof.
-  intros st v line s1 s2.
-  unfold line_spec_with, accept, starts_combo, with_vertices.
-  cbn [ho_last ho_curve ho_vertices ho_objects ho_mode].
-  repeat match goal with
-         | |- context [match ?x with _ => _ end] => destruct x
-         end; split; reflexivity.
-Qed.
-
-Theorem vertices_irrelevant : forall st v line st1 r1 st2 r2,
-  parse_hit_objects st line = Done (st1, r1) ->
-  parse_hit_objects (with_vertices st v) line = Done (st2, r2) ->
-  r1 = r2 /\ with_vertices st1 [] = with_vertices st2 [].
-Proof.
-  intros st v line st1 r1 st2 r2 H1 H2.
-  destruct (parse_hit_objects_spec st line) as [s1 E1].
-  destruct (parse_hit_objects_spec (with_vertices st v) line) as [s2 E2].
-  rewrite E1 in H1. rewrite E2 in H2. injection H1 as H1. injection H2 as H2.
-  pose proof (line_spec_vertices st v line s1 s2) as [Hr Hs].
-  rewrite H1, H2 in Hr, Hs. cbn [fst snd] in Hr, Hs. split; assumption.
-Qed.
